@@ -1,4 +1,5 @@
 import St4sd.Lemmas.C09
+import St4sd.Model.RefSession
 import St4sd.Gen.C09
 /-!
 # C09 — Data references parse, print and classify consistently
@@ -414,6 +415,131 @@ theorem topLevelFolders_no_slash (keys : List S) : ∀ f ∈ topLevelFolders key
   | none => simpa [hq] using this
   | some ab => simpa [hq] using this
 
+/-! ## 6. Sessions: every answer is a function of the call's own arguments
+
+`Model/RefSession.lean`: a *session* is a sequence of calls (with their optional arguments spelled
+`none` / `some []` / `some l`) made in one interpreter whose class-level tables
+(`FlowIR.SpecialFolders`, `data_reference_methods`, `DataReference.methods`) are `t`.  The theorems
+below hold for every session, i.e. every history of earlier calls with any other name sets. -/
+
+/-- **session_tables_invariant.**  No sequence of calls changes the class-level tables. -/
+theorem session_tables_invariant (t : Tables) (cs : List Call) : (run t cs).1 = t := by
+  induction cs generalizing t with
+  | nil => rfl
+  | cons c cs ih => simp [run, step, ih]
+
+/-- **session_answers_pointwise.**  The answers of a session are the answers of its calls taken one
+by one: nothing is carried from one call to the next. -/
+theorem session_answers_pointwise (t : Tables) (cs : List Call) : (run t cs).2 = cs.map (answer t) := by
+  induction cs generalizing t with
+  | nil => rfl
+  | cons c cs ih => simp [run, step, ih]
+
+/-- the `k`-th answer of any session is `answer t` of the `k`-th call -/
+theorem session_answer_at (t : Tables) (cs : List Call) (k : Nat) (c : Call) (h : cs[k]? = some c) :
+    (run t cs).2[k]? = some (answer t c) := by
+  rw [session_answers_pointwise]; simp [h]
+
+/-- **answer_depends_only_on_arguments.**  After any two histories `h1`, `h2` the same call gets the
+same answer, namely the one it gets in a fresh interpreter. -/
+theorem answer_depends_only_on_arguments (t : Tables) (h1 h2 : List Call) (c : Call) :
+    (run t (h1 ++ [c])).2.getLast? = some (answer t c) ∧
+    (run t (h2 ++ [c])).2.getLast? = some (answer t c) ∧
+    (run t [c]).2 = [answer t c] := by
+  simp [session_answers_pointwise]
+
+/-- **classification_depends_only_on_arguments.**  The classification of a reference
+(`ParseDataReferenceFull`) in a session is determined by the string, the context stage and the
+application dependencies / top-level folders *of that call*: it is the pure `parseFull` of
+`Model/Ref.lean` (about which sections 1-5 speak), whatever was parsed before — in particular the
+application dependencies of earlier calls are not reserved names for later ones. -/
+theorem classification_depends_only_on_arguments (t : Tables) (hist : List Call) (v : S) (i : Option Nat)
+    (deps extra : Option (List S)) :
+    (run t (hist ++ [.full v i deps extra])).2.getLast? =
+      some (match parseFull t.special v i (olist deps) (olist extra) with
+        | none => Answer.err
+        | some (si, job, f, m) => Answer.full si job f m) := by
+  simp only [session_answers_pointwise, List.map_append, List.map_cons, List.map_nil, answer]
+  cases parseFull t.special v i (olist deps) (olist extra) with
+  | none => simp
+  | some q => obtain ⟨si, job, f, m⟩ := q; simp
+
+/-- a session may be cut into batches at any point: same tables, same answers -/
+theorem session_split (t : Tables) (a b : List Call) :
+    run t (a ++ b) = (t, (run t a).2 ++ (run t b).2) := by
+  apply Prod.ext
+  · exact session_tables_invariant t (a ++ b)
+  · simp [session_answers_pointwise]
+
+/-- **session_reorder.**  The same call made at position `k` of one session and at position `k'` of
+any other session (other calls before it, other order) gets the same answer. -/
+theorem session_reorder (t : Tables) (cs cs' : List Call) (k k' : Nat) (c : Call)
+    (h : cs[k]? = some c) (h' : cs'[k']? = some c) : (run t cs).2[k]? = (run t cs').2[k']? := by
+  rw [session_answer_at t cs k c h, session_answer_at t cs' k' c h']
+
+/-! ### optional arguments: `None` and `[]` are the same (empty) name set -/
+
+/-- `ParseDataReferenceFull`: `application_dependencies` / `special_folders` given as `None` or `[]` -/
+theorem optional_none_is_empty_full (t : Tables) (v : S) (i : Option Nat) (d e : Option (List S)) :
+    answer t (.full v i none e) = answer t (.full v i (some []) e) ∧
+    answer t (.full v i d none) = answer t (.full v i d (some [])) := by
+  simp [answer, olist]
+
+/-- `is_datareference_to_component`, `expand_component_references`, `DataReferenceInfo`,
+`validate_references` -/
+theorem optional_none_is_empty_others (t : Tables) (v : S) (refs : List S) (ctx : Nat) (known : Option Known)
+    (k : Known) (d e : Option (List S)) (im : Option Nat) :
+    answer t (.isc v none) = answer t (.isc v (some [])) ∧
+    answer t (.expandAll refs ctx known none e) = answer t (.expandAll refs ctx known (some []) e) ∧
+    answer t (.expandAll refs ctx known d none) = answer t (.expandAll refs ctx known d (some [])) ∧
+    answer t (.dri v ctx none) = answer t (.dri v ctx (some [])) ∧
+    answer t (.vrefs v k im none) = answer t (.vrefs v k im (some [])) := by
+  simp [answer, olist, expandAll, dataRefInfo, validateRefs]
+
+/-- `expand_potential_component_reference`: `top_level_folders=None` and `[]` give the same answer -/
+theorem optional_none_is_empty_expand (t : Tables) (v : S) (ctx : Nat) (known : Option Known) (force : Bool) :
+    answer t (.expand v ctx known none force) = answer t (.expand v ctx known (some []) force) := by
+  simp [answer, expandPotential, expandDecision]
+
+/-! ### the folder / dependency arguments are name *sets* -/
+
+/-- **classification_depends_only_on_name_sets.**  Two spellings of the folder arguments with the same
+members (other order, duplicates, a name moved between the application dependencies and the top-level
+folders) classify every string identically. -/
+theorem classification_depends_only_on_name_sets (sf : List S) (v : S) (i : Option Nat)
+    (d1 e1 d2 e2 : List S) (h : ∀ x, x ∈ folders sf d1 e1 ↔ x ∈ folders sf d2 e2) :
+    parseFullX sf v i d1 e1 = parseFullX sf v i d2 e2 := by
+  unfold parseFullX
+  cases parseDataReference sf v with
+  | none => rfl
+  | some q =>
+    obtain ⟨ref, file, m⟩ := q
+    simp only
+    have : (folders sf d1 e1).contains (parseProducerReference ref i).2.1 =
+        (folders sf d2 e2).contains (parseProducerReference ref i).2.1 := by
+      simp only [List.contains_eq_mem]
+      exact decide_eq_decide.mpr (h _)
+    rw [this]
+
+/-- the same for the top-level-folder list of `expand_potential_component_reference` -/
+theorem expand_depends_only_on_name_sets (sf : List S) (v : S) (ctx : Nat) (known : Option Known)
+    (t1 t2 : List S) (force : Bool) (h : ∀ x, x ∈ t1 ↔ x ∈ t2) :
+    expandPotential sf v ctx known (some t1) force = expandPotential sf v ctx known (some t2) force := by
+  have hc : ∀ p : S, t1.contains p = t2.contains p := fun p => by
+    simp only [List.contains_eq_mem]; exact decide_eq_decide.mpr (h p)
+  have he : t1.isEmpty = t2.isEmpty := by
+    cases t1 with
+    | nil =>
+      cases t2 with
+      | nil => rfl
+      | cons b t2 => exact absurd ((h b).mpr (by simp)) (by simp)
+    | cons a t1 =>
+      cases t2 with
+      | nil => exact absurd ((h a).mp (by simp)) (by simp)
+      | cons b t2 => rfl
+  unfold expandPotential expandDecision
+  simp only [hc, he]
+
 /-! ## Non-vacuity: the hypotheses are satisfiable by non-trivial inputs -/
 
 example : WFparts "gen.x-1".toList (some "out/a.txt".toList) "ref".toList := by unfold WFparts; decide
@@ -436,5 +562,16 @@ example : expandOne Gen.C09.specialFoldersC "mydep/x:copy".toList 1 (some [(1, [
 
 /-- the prefix-matching quirk of `stage([0-9]+)` that the model keeps -/
 example : parseProducerReference "stage01x.foo".toList none = (some 1, "foo".toList, true) := by decide
+
+/-- a session in which an application dependency `Solver.application` is declared by an earlier call
+(without a top-level-folder list) and a later call refers to a *component* `solver`: the later
+reference is a component reference, the tables are untouched -/
+example :
+    run ⟨Gen.C09.specialFoldersC, Gen.C09.dataReferenceMethodsC, Gen.C09.dataReferenceMethodsC⟩
+      [.full "solver/bin/run.sh:ref".toList (some 0) (some ["/opt/Solver.application".toList]) none,
+       .full "solver/out.dat:copy".toList (some 0) none none]
+    = (⟨Gen.C09.specialFoldersC, Gen.C09.dataReferenceMethodsC, Gen.C09.dataReferenceMethodsC⟩,
+       [.full none "solver".toList (some "bin/run.sh".toList) "ref".toList,
+        .full (some 0) "solver".toList (some "out.dat".toList) "copy".toList]) := by decide
 
 end St4sd.C09
